@@ -70,7 +70,7 @@ def treeSpan : Handler := fun j => do
   let last := match ps.getLast? with
     | some p => Json.num (p.2 : Nat)
     | none => Json.null
-  pure (Json.mkObj [("wf2", Json.bool (treeOk2 t')),
+  pure (Json.mkObj [("wf2", Json.bool (treeOk2 t')), ("wf3", Json.bool (treeOk3 t')),
     ("monotone", Json.bool (namesOkTree t' && lastDescMono [] [] t')),
     ("monotone_preorder", Json.bool (decide (PreorderMonotone (entries [] [] t')))),
     ("first", first), ("last", last), ("count", Json.num (ps.length : Nat))])
